@@ -129,30 +129,35 @@ def _encode_state(bp):
     return es, cur, origin
 
 
+def _field_content_from_pdu(msg, cur, dt, n, bp, hl):
+    """the n-bit field content at (cur, bp) of a PDU, by the ODX rule, as an integer over the byte values"""
+    L = W.group_len(n, bp)
+    G = W.group_int(msg[cur:cur + L], dt, hl)
+    return (G >> bp) & ((1 << n) - 1)
+
+
 def _check_encoded_group(es, old_msg, old_mask, cur, origin, dt, n, bp, hl, R):
     """whole-view postcondition of one atomic value written at (cur, bp): R is the n-bit field content (an int).
     Stated per PDU byte k of the group: with the group read as one big-endian integer (bytes reversed for low-high
     numeric types) bit i of R is bit bp+i of the group."""
     L = W.group_len(n, bp)
     M = W.field_mask(n, bp)
-    F = R * (1 << bp)  # the field content shifted to its place inside the group
     new, new_mask = es.coded_message, es.used_mask
     H.check("C02:pdu-length-is-max-of-old-and-end-of-object",
             H.And(len(new) == H.ite(len(old_msg) > cur + L, len(old_msg), cur + L), len(new_mask) == len(new)))
     ext_old = W.extend(old_msg, cur + L)
     ext_mask = W.extend(old_mask, cur + L)
-    claimed_ok, unclaimed_ok, mask_ok, overlap = [], [], [], []
+    H.check("C02:claimed-bits-hold-the-field-content", _field_content_from_pdu(new, cur, dt, n, bp, hl) == R)
+    unclaimed_ok, mask_ok, overlap = [], [], []
     for k in range(L):
         idx = L - 1 - k if W.swap_needed(dt, hl) else k
         shift = 8 * (L - 1 - idx)
         mk = (M >> shift) & 0xFF
-        fk = H.mod(H.div(F, 1 << shift), 256)
         nb, ob = new[cur + k], ext_old[cur + k]
         nm, om = new_mask[cur + k], ext_mask[cur + k]
         unclaimed_ok.append((nb & (0xFF - mk)) == (ob & (0xFF - mk)))
         mask_ok.append(nm == (om | mk))
         overlap.append((om & mk) != 0)
-    H.check("C02:claimed-bits-hold-the-field-content", W.claimed_bits_hold(new[cur:cur + L], dt, n, bp, hl, R))
     H.check("C02:unclaimed-bits-of-the-group-unchanged-or-zero", H.And(unclaimed_ok))
     H.check("C02:used-mask-gains-exactly-the-claimed-bits", H.And(mask_ok))
     H.check("C02:bytes-outside-the-group-unchanged",
@@ -235,16 +240,6 @@ def bcd_decode_helper(enc):
     H.check("bcd-decode-helper-agrees-with-call-site-contract", r == W.val("A_UINT32", enc, 64, value))
 
 
-def _field_content_from_pdu(msg, cur, dt, n, bp, hl):
-    """the n-bit field content at (cur, bp) of a PDU, by the ODX rule, as an integer over the byte values"""
-    L = W.group_len(n, bp)
-    G = 0
-    for k in range(L):
-        idx = L - 1 - k if W.swap_needed(dt, hl) else k
-        G = G + msg[cur + k] * (1 << (8 * (L - 1 - idx)))
-    return H.mod(H.div(G, 1 << bp), 1 << n)
-
-
 @harness(props=["C02", "C03", "C05", "C08"], strength="E", family=int_family,
          functions=[DecodeState.extract_atomic_value], covers=["decoded", "too-short"], assumes=["A-bitstruct"],
          use_contracts=["bcd"])
@@ -281,7 +276,8 @@ def decode_int(dt, enc, n, bp, hl):
 
 @harness(props=["C01", "C03", "C04"], strength="E",
          family=lambda tier, seed: [{"dt": dt, "enc": enc, "n": n} for dt, enc in INT_COMBOS
-                                    for n in (range(1, 65) if tier == "thorough" else (1, 2, 8, 13, 32, 64))])
+                                    for n in (range(1, 65) if tier == "thorough" else (1, 2, 8, 13, 32, 64))
+                                    if not (enc in ("BCD_P", "BCD_UP") and n > 16)])
 def lemma_leaf_roundtrip(dt, enc, n):
     """RT-leaf over the wire specification only: val(raw(v)) = v for representable v; raw(val(r)) = r for canonical r"""
     v = H.int("v")
@@ -296,28 +292,264 @@ def lemma_leaf_roundtrip(dt, enc, n):
     H.check("C03:raw-of-value-is-the-content", W.raw(dt, enc, n, v2) == r2)
 
 
-def _readback_family(tier, seed):
+# ---------------------------------------------------------------------------------------------------------------
+# floats, byte fields, strings
+def float_family(tier, seed):
     out = []
-    seen = set()
-    for p in int_family(tier, seed):
-        key = (p["dt"] in W.NUMERIC, p["n"], p["bp"], p["hl"])
-        if key not in seen:
-            seen.add(key)
-            out.append({"dt": p["dt"], "n": p["n"], "bp": p["bp"], "hl": p["hl"]})
+    for dt, good in (("A_FLOAT32", 32), ("A_FLOAT64", 64)):
+        for n in (good, 16 if good == 32 else 32):
+            for bp in ((0, 4) if tier == "quick" else range(8)):
+                for hl in (True, False):
+                    out.append({"dt": dt, "n": n, "bp": bp, "hl": hl})
     return out
 
 
-@harness(props=["C01", "C03"], strength="E", family=_readback_family)
-def lemma_read_back(dt, n, bp, hl):
-    """over the specification only: if the claimed bits of a group hold field content R (the encoder's postcondition
-    `claimed-bits-hold-the-field-content`) then the decoder's reading rule (`decoded-value-is-the-value-of-the-
-    described-bits`) sees exactly R, whatever the other bits are - and conversely re-placing what was read changes
-    nothing (C03)"""
+@harness(props=["C01", "C02", "C04", "C08"], strength="E", family=float_family,
+         functions=[EncodeState.emplace_atomic_value, EncodeState.emplace_bytes], covers=["accepted", "rejected"],
+         assumes=["A-bitstruct", "A-float"])
+def encode_float(dt, n, bp, hl):
+    """emplace_atomic_value, float types: bit length must be 32/64; the PDU holds the IEEE image (A-float)"""
+    es, cur, origin = _encode_state(bp)
+    v = H.real("v")
+    good = 32 if dt == "A_FLOAT32" else 64
+    old_msg, old_mask = H.snapshot(es.coded_message), H.snapshot(es.used_mask)
+    try:
+        es.emplace_atomic_value(internal_value=v, bit_length=n, base_data_type=DataType[dt], base_type_encoding=None,
+                                is_highlow_byte_order=hl, used_mask=None)
+    except OdxError:
+        H.cover("rejected")
+        H.check("C04:only-illegal-float-lengths-are-rejected", n != good)
+        return
+    except Exception:
+        H.check("C04:rejections-are-odxtools-errors-never-foreign-exceptions", False)
+        return
+    H.cover("accepted")
+    H.check("C04:rejections-are-odxtools-errors-never-foreign-exceptions", True)
+    H.check("C04:accepted-implies-legal-float-length", n == good)
+    if n == good:
+        _check_encoded_group(es, old_msg, old_mask, cur, origin, dt, n, bp, hl, H.float_bits(v, n))
+
+
+@harness(props=["C02", "C03", "C05", "C08"], strength="E", family=float_family,
+         functions=[DecodeState.extract_atomic_value], covers=["decoded", "too-short"],
+         assumes=["A-bitstruct", "A-float"])
+def decode_float(dt, n, bp, hl):
+    """extract_atomic_value, float types: DecodeError iff too short (or OdxError for an illegal length); value = IEEE
+    reading of exactly the described bits"""
+    msg = H.bytes("msg")
+    cur = H.int("cur", 0)
+    good = 32 if dt == "A_FLOAT32" else 64
+    ds = DecodeState(coded_message=msg, cursor_byte_position=cur, cursor_bit_position=bp)
     L = W.group_len(n, bp)
-    M = W.field_mask(n, bp)
-    b = H.bytes("pdu_group", L, L)
-    R = H.int("R", 0, (1 << n) - 1)
-    placed = W.claimed_bits_hold(b, dt, n, bp, hl, R)
-    seen = _field_content_from_pdu(b, 0, dt, n, bp, hl)
-    H.check("C01:decoder-reads-what-the-encoder-placed", H.implies(placed, seen == R))
-    H.check("C03:re-placing-the-read-content-reproduces-the-claimed-bits", H.implies(seen == R, placed))
+    try:
+        v = ds.extract_atomic_value(bit_length=n, base_data_type=DataType[dt], base_type_encoding=None,
+                                    is_highlow_byte_order=hl)
+    except DecodeError:
+        H.cover("too-short")
+        H.check("C05:decode-error-only-if-the-pdu-ends-before-the-object", cur + L > len(msg))
+        return
+    except OdxError:
+        H.check("illegal-float-length-is-an-odxerror", n != good)
+        return
+    except Exception:
+        H.check("C05:only-decode-errors-escape", False)
+        return
+    H.cover("decoded")
+    H.check("C05:only-decode-errors-escape", True)
+    H.check("C05:truncated-pdu-is-rejected-not-completed", cur + L <= len(msg))
+    H.assume(cur + L <= len(msg))
+    R = _field_content_from_pdu(msg, cur, dt, n, bp, hl)
+    H.check("C02:decoded-value-is-the-value-of-the-described-bits", v == H.float_of_bits(R, n))
+    H.check("C02,C08:cursor-advances-by-the-static-byte-length",
+            H.And(ds.cursor_byte_position == cur + L, ds.cursor_bit_position == 0))
+
+
+def bytes_family(tier, seed):
+    out = []
+    for enc in (None, "NONE", "BCD_P", "BCD_UP"):
+        for n in ((8, 24, 64) if tier == "quick" else (8, 16, 24, 32, 40, 64, 128)):
+            for hl in (True, False):
+                out.append({"enc": enc, "n": n, "hl": hl})
+    return out
+
+
+@harness(props=["C01", "C02", "C04", "C08"], strength="E", family=bytes_family,
+         functions=[EncodeState.emplace_atomic_value, EncodeState.emplace_bytes], covers=["accepted", "rejected"],
+         assumes=["A-bitstruct"])
+def encode_bytefield(enc, n, hl):
+    """emplace_atomic_value, A_BYTEFIELD (bit position 0): accepted iff the value has exactly n/8 bytes; the PDU holds
+    these bytes in order; over- and under-long values are rejected with an odxtools error"""
+    es, cur, origin = _encode_state(0)
+    v = H.bytes("v")
+    old_msg, old_mask = H.snapshot(es.coded_message), H.snapshot(es.used_mask)
+    try:
+        es.emplace_atomic_value(internal_value=v, bit_length=n, base_data_type=DataType.A_BYTEFIELD,
+                                base_type_encoding=_enc(enc), is_highlow_byte_order=hl, used_mask=None)
+    except OdxError:
+        H.cover("rejected")
+        H.check("C04:only-values-of-the-wrong-length-are-rejected", 8 * len(v) != n)
+        return
+    except Exception:
+        H.check("C04:rejections-are-odxtools-errors-never-foreign-exceptions", False)
+        return
+    H.cover("accepted")
+    H.check("C04:rejections-are-odxtools-errors-never-foreign-exceptions", True)
+    H.check("C04:accepted-implies-exact-length-no-padding-no-truncation", 8 * len(v) == n)
+    H.assume(8 * len(v) == n)
+    L = n // 8
+    new, new_mask = es.coded_message, es.used_mask
+    H.check("C02:pdu-holds-the-bytes-in-order", H.eq(new[cur:cur + L], v))
+    H.check("C02:pdu-length-is-max-of-old-and-end-of-object",
+            H.And(len(new) == H.ite(len(old_msg) > cur + L, len(old_msg), cur + L), len(new_mask) == len(new)))
+    ext_old, ext_mask = W.extend(old_msg, cur + L), W.extend(old_mask, cur + L)
+    H.check("C02:used-mask-gains-exactly-the-claimed-bits", H.eq(new_mask[cur:cur + L], b"\xff" * L))
+    H.check("C02:bytes-outside-the-group-unchanged",
+            H.forall(0, len(new), lambda j: H.implies(H.Or(j < cur, j >= cur + L), H.And(
+                H.byte_at(new, j) == H.byte_at(ext_old, j), H.byte_at(new_mask, j) == H.byte_at(ext_mask, j)))))
+    H.check("C02,C08:cursor-advances-by-the-static-byte-length",
+            H.And(es.cursor_byte_position == cur + L, es.cursor_bit_position == 0))
+    H.check("C02:overlap-warning-iff-a-claimed-bit-was-already-used",
+            H.eq(H.warnings(OdxWarning) > 0, H.Not(H.eq(ext_mask[cur:cur + L], b"\x00" * L))))
+
+
+@harness(props=["C02", "C03", "C05", "C08"], strength="E", family=bytes_family,
+         functions=[DecodeState.extract_atomic_value], covers=["decoded", "too-short"], assumes=["A-bitstruct"])
+def decode_bytefield(enc, n, hl):
+    """extract_atomic_value, A_BYTEFIELD: DecodeError iff too short, else exactly the n/8 described bytes"""
+    msg = H.bytes("msg")
+    cur = H.int("cur", 0)
+    ds = DecodeState(coded_message=msg, cursor_byte_position=cur, cursor_bit_position=0)
+    L = W.group_len(n, 0)
+    try:
+        v = ds.extract_atomic_value(bit_length=n, base_data_type=DataType.A_BYTEFIELD, base_type_encoding=_enc(enc),
+                                    is_highlow_byte_order=hl)
+    except DecodeError:
+        H.cover("too-short")
+        H.check("C05:decode-error-only-if-the-pdu-ends-before-the-object", cur + L > len(msg))
+        return
+    except Exception:
+        H.check("C05:only-decode-errors-escape", False)
+        return
+    H.cover("decoded")
+    H.check("C05:only-decode-errors-escape", True)
+    H.check("C05:truncated-pdu-is-rejected-not-completed", cur + L <= len(msg))
+    H.assume(cur + L <= len(msg))
+    if n % 8 == 0:
+        H.check("C02:decoded-value-is-the-value-of-the-described-bits", H.eq(v, msg[cur:cur + L]))
+    H.check("C02,C08:cursor-advances-by-the-static-byte-length",
+            H.And(ds.cursor_byte_position == cur + L, ds.cursor_bit_position == 0))
+
+
+STRING_COMBOS = [("A_ASCIISTRING", None), ("A_ASCIISTRING", "ISO_8859_1"), ("A_ASCIISTRING", "ISO_8859_2"),
+                 ("A_ASCIISTRING", "WINDOWS_1252"), ("A_UTF8STRING", None), ("A_UTF8STRING", "UTF8"),
+                 ("A_UNICODE2STRING", None), ("A_UNICODE2STRING", "UCS2")]
+
+
+def string_family(tier, seed):
+    out = []
+    for dt, enc in STRING_COMBOS:
+        for n in ((16, 64) if tier == "quick" else (8, 16, 32, 64, 128)):
+            for hl in (True, False):
+                out.append({"dt": dt, "enc": enc, "n": n, "hl": hl})
+    return out
+
+
+@harness(props=["C01", "C02", "C04", "C08"], strength="E", family=string_family,
+         functions=[EncodeState.emplace_atomic_value, EncodeState.emplace_bytes], covers=["accepted", "rejected"],
+         assumes=["A-bitstruct", "A-codec"], crosscheck=False)
+def encode_string(dt, enc, n, hl):
+    """emplace_atomic_value, string types: the PDU holds the codec image of the text; accepted iff it has exactly n/8
+    bytes; unencodable text and wrong lengths are rejected with an odxtools error (A-codec)"""
+    es, cur, origin = _encode_state(0)
+    v = H.text("v")
+    old_msg = H.snapshot(es.coded_message)
+    try:
+        es.emplace_atomic_value(internal_value=v, bit_length=n, base_data_type=DataType[dt],
+                                base_type_encoding=_enc(enc), is_highlow_byte_order=hl, used_mask=None)
+    except OdxError:
+        H.cover("rejected")
+        return
+    except Exception:
+        H.check("C04:rejections-are-odxtools-errors-never-foreign-exceptions", False)
+        return
+    H.cover("accepted")
+    H.check("C04:rejections-are-odxtools-errors-never-foreign-exceptions", True)
+    L = n // 8
+    new = es.coded_message
+    # what was written must decode (same codec) to the text: no truncation, no padding
+    ds = DecodeState(coded_message=bytes(new), cursor_byte_position=cur, cursor_bit_position=0)
+    try:
+        v2 = ds.extract_atomic_value(bit_length=n, base_data_type=DataType[dt], base_type_encoding=_enc(enc),
+                                     is_highlow_byte_order=hl)
+    except Exception:
+        H.check("C01,C04:accepted-text-decodes-back", False)
+        return
+    H.check("C01,C04:accepted-text-decodes-back", v2 == v)
+    H.check("C02,C08:cursor-advances-by-the-static-byte-length",
+            H.And(es.cursor_byte_position == cur + L, es.cursor_bit_position == 0,
+                  ds.cursor_byte_position == cur + L))
+    H.check("C02:pdu-length-is-max-of-old-and-end-of-object",
+            len(new) == H.ite(len(old_msg) > cur + L, len(old_msg), cur + L))
+
+
+@harness(props=["C05", "C17"], strength="E", family=string_family,
+         functions=[DecodeState.extract_atomic_value], covers=["decoded", "too-short"],
+         assumes=["A-bitstruct", "A-codec"], crosscheck=False)
+def decode_string(dt, enc, n, hl):
+    """extract_atomic_value, string types, arbitrary bytes: only DecodeError escapes (undecodable bytes included);
+    in non-strict mode undecodable bytes are replaced, never an error (C17: the flag is read at call time)"""
+    strict = H.bool("strict")
+    H.set_global(X, "strict_mode", strict)
+    msg = H.bytes("msg")
+    cur = H.int("cur", 0)
+    ds = DecodeState(coded_message=msg, cursor_byte_position=cur, cursor_bit_position=0)
+    L = W.group_len(n, 0)
+    try:
+        v = ds.extract_atomic_value(bit_length=n, base_data_type=DataType[dt], base_type_encoding=_enc(enc),
+                                    is_highlow_byte_order=hl)
+    except DecodeError:
+        H.cover("too-short")
+        H.check("C17:undecodable-text-is-an-error-only-in-strict-mode", H.Or(strict, cur + L > len(msg)))
+        return
+    except Exception:
+        H.check("C05:only-decode-errors-escape", False)
+        return
+    H.cover("decoded")
+    H.check("C05:only-decode-errors-escape", True)
+    H.check("C05:truncated-pdu-is-rejected-not-completed", cur + L <= len(msg))
+    H.check("C02,C08:cursor-advances-by-the-static-byte-length",
+            H.And(ds.cursor_byte_position == cur + L, ds.cursor_bit_position == 0))
+
+
+WRONG_KINDS = ("int", "bool", "float", "str", "bytes", "bytearray", "none", "list")
+
+
+def wrongtype_family(tier, seed):
+    out = []
+    for dt, enc, n in (("A_UINT32", None, 16), ("A_INT32", "TWOC", 16), ("A_FLOAT32", None, 32),
+                       ("A_FLOAT64", None, 64), ("A_BYTEFIELD", None, 16), ("A_ASCIISTRING", None, 16),
+                       ("A_UTF8STRING", None, 16), ("A_UNICODE2STRING", None, 16), ("A_UINT32", "BCD_P", 16)):
+        for kind in WRONG_KINDS:
+            out.append({"dt": dt, "enc": enc, "n": n, "kind": kind})
+    return out
+
+
+@harness(props=["C04"], strength="E", family=wrongtype_family, functions=[EncodeState.emplace_atomic_value],
+         covers=["accepted", "rejected"], assumes=["A-bitstruct", "A-codec", "A-float"], crosscheck=False,
+         use_contracts=["bcd"])
+def encode_any_type(dt, enc, n, kind):
+    """emplace_atomic_value with a value of every dynamic type (right and wrong): whatever happens, no foreign
+    exception escapes - a wrongly typed value is rejected with an odxtools error or encoded faithfully"""
+    es, cur, origin = _encode_state(0)
+    v = H.value_of_kind("v", kind)
+    try:
+        es.emplace_atomic_value(internal_value=v, bit_length=n, base_data_type=DataType[dt],
+                                base_type_encoding=_enc(enc), is_highlow_byte_order=True, used_mask=None)
+    except OdxError:
+        H.cover("rejected")
+        H.check("C04:rejections-are-odxtools-errors-never-foreign-exceptions", True)
+        return
+    except Exception:
+        H.check("C04:rejections-are-odxtools-errors-never-foreign-exceptions", False)
+        return
+    H.cover("accepted")
